@@ -122,7 +122,39 @@ def expressible(case, carrier) -> bool:
     return True
 
 
+def _lits_out(v, lits):
+    """`{"$lit": "<JSON text>"}` nodes (a literal the server writes as it is: NaN, 1e400, "\\ud83d" …) -> placeholders"""
+    if isinstance(v, dict):
+        if set(v) == {"$lit"}:
+            lits.append(v["$lit"])
+            return f"$LIT{len(lits) - 1}$"
+        return {k: _lits_out(x, lits) for k, x in v.items()}
+    if isinstance(v, list):
+        return [_lits_out(x, lits) for x in v]
+    return v
+
+
+def delit(v):
+    """the value a JSON parser that accepts the literal (the stdlib's) gives for it"""
+    if isinstance(v, dict):
+        if set(v) == {"$lit"}:
+            return json.loads(v["$lit"])
+        return {k: delit(x) for k, x in v.items()}
+    if isinstance(v, list):
+        return [delit(x) for x in v]
+    return v
+
+
 def dumps(style, v) -> str:
+    lits = []
+    v = _lits_out(v, lits)
+    text = _dumps(style, v)
+    for i, t in enumerate(lits):
+        text = text.replace(json.dumps(f"$LIT{i}$"), t)
+    return text
+
+
+def _dumps(style, v) -> str:
     sp = bool(style.get("sp"))
     if isinstance(v, dict):
         if style.get("extra"):
@@ -199,8 +231,8 @@ def canon_msg(m):
     if isinstance(m, list):
         return {"list": [canon_msg(x) for x in m]}
     get = (lambda k: m.get(k)) if isinstance(m, dict) else (lambda k: getattr(m, k, None))
-    return {"id": G.idtag(get("id")), "method": jsonable(get("method")), "params": jsonable(get("params")),
-            "result": jsonable(get("result")), "error": jsonable(get("error"))}
+    return {"id": G.idtag(get("id")), "method": jsonable(get("method")), "params": jsonable(delit(get("params"))),
+            "result": jsonable(delit(get("result"))), "error": jsonable(delit(get("error")))}
 
 
 def kind_of(e):
